@@ -165,6 +165,8 @@ class FakeS3:
         self.gate: Optional[Callable[[str, Dict[str, Any]], None]] = None
         self.page_size = page_size              # page size used by the paginator (small: exercises pagination)
         self.mtime_granularity: Optional[float] = None   # e.g. 1.0 to mimic HTTP-date LastModified
+        self.max_keys_cap = 1000                # S3 never returns more than 1000 keys per list request; lower it to
+                                                # force IsTruncated even on direct list_objects_v2 calls
         self._faults: List[_Fault] = []
         self._lock = threading.RLock()
         self._n = 0
@@ -373,7 +375,7 @@ class FakeS3:
     def list_objects_v2(self, **kw: Any) -> Dict[str, Any]:
         def effect(entry: Dict[str, Any]) -> Dict[str, Any]:
             prefix = kw.get("Prefix", "") or ""
-            max_keys = int(kw.get("MaxKeys", 1000))
+            max_keys = min(int(kw.get("MaxKeys", 1000)), self.max_keys_cap)
             delim = kw.get("Delimiter")
             after = None
             tok = kw.get("ContinuationToken")
@@ -584,21 +586,36 @@ _patch_lock = threading.RLock()
 
 @contextlib.contextmanager
 def patched_boto(fake: FakeS3) -> Iterator[None]:
-    """Within the block, boto3 Session.client('s3', ...) returns the fake and DataFileManager builds
-    its pyarrow filesystem over the fake.  (Table.__init__ already talks to S3, so the fake has to be
+    """Within the block, boto3.session.Session().client('s3', ...) returns the fake and DataFileManager
+    builds its pyarrow filesystem over the fake.  (Table.__init__ already talks to S3, so the fake has to be
     in place before construction.)"""
     import boto3.session
 
     from datashard import data_operations
 
     with _patch_lock:
-        real_client = boto3.session.Session.client
+        real_session = boto3.session.Session
+        real_top = getattr(boto3, "Session", None)
         real_fs = data_operations.DataFileManager._get_arrow_filesystem
 
-        def client(self: Any, service_name: str, *a: Any, **kw: Any) -> Any:
-            if service_name == "s3":
-                return fake
-            return real_client(self, service_name, *a, **kw)
+        class _StubSession:
+            """Stands in for boto3.session.Session (constructing a real one costs ~10 ms: botocore
+            registers ~130 event handlers).  Only what the library uses: .client('s3', ...)."""
+
+            def __init__(self, *a: Any, **kw: Any) -> None:
+                self._real: Any = None
+
+            def client(self, service_name: str, *a: Any, **kw: Any) -> Any:
+                if service_name == "s3":
+                    return fake
+                if self._real is None:
+                    self._real = real_session()
+                return self._real.client(service_name, *a, **kw)
+
+            def __getattr__(self, name: str) -> Any:
+                if self._real is None:
+                    self._real = real_session()
+                return getattr(self._real, name)
 
         def arrow_fs(self: Any) -> Any:
             from datashard.storage_backend import S3StorageBackend
@@ -607,12 +624,16 @@ def patched_boto(fake: FakeS3) -> Iterator[None]:
                 return make_arrow_fs(fake)
             return None
 
-        boto3.session.Session.client = client  # type: ignore[method-assign]
+        boto3.session.Session = _StubSession  # type: ignore[misc,assignment]
+        if real_top is not None:
+            boto3.Session = _StubSession  # type: ignore[misc,assignment]
         data_operations.DataFileManager._get_arrow_filesystem = arrow_fs  # type: ignore[method-assign]
         try:
             yield
         finally:
-            boto3.session.Session.client = real_client  # type: ignore[method-assign]
+            boto3.session.Session = real_session  # type: ignore[misc]
+            if real_top is not None:
+                boto3.Session = real_top  # type: ignore[misc]
             data_operations.DataFileManager._get_arrow_filesystem = real_fs  # type: ignore[method-assign]
 
 
